@@ -13,7 +13,8 @@ from sim import devices
 from sim.canon import Log, dec_table
 from sim.catalogue import RECIPES, NAMES
 from sim.core import outcome
-from sim.devices import SimSourceError, SimDiskFull, SOURCE_ERROR_KINDS
+from sim.devices import (SimSourceError, SimSourceAbort, SimDiskFull,
+                         SOURCE_ERROR_KINDS)
 from sim.gen import gen_table
 from sim.loader import load_petl
 from sim.sched import Sched, Violation, gen_schedule
@@ -163,7 +164,7 @@ def _listing(path):
 
 
 def _is_injected(t, e):
-    return isinstance(e, (SimSourceError, SimDiskFull))
+    return isinstance(e, (SimSourceError, SimSourceAbort, SimDiskFull))
 
 
 def run_case(case):
